@@ -24,10 +24,15 @@ def gen(seed, tier, focus):
             nr = rng.choice([2, 2, 3, 3, 4]); nw = rng.choice([0, 0, 1, 1, 2])
         else:
             nr = rng.choice([0, 1, 1, 1, 2]); nw = rng.choice([1, 2, 2, 3, 3])
-        res = [(rng.choice([0, 0, 1, 2, 3, 4, 4, 5]), rng.randint(1, 99)) for _ in range(nr)]
-        wai = [rng.choice([0, 1, 2, 3, 4]) for _ in range(nw)]
+        res = [(rng.choice([0, 0, 1, 2, 3, 4, 4, 5, 6, 7, 7]), rng.randint(1, 99)) for _ in range(nr)]
+        wai = [rng.choice([0, 1, 2, 3, 4, 5]) for _ in range(nw)]
+        if focus == "waiters" and i % 6 == 5:
+            # boundary of the suspend point (3 inline slots): 4-6 coroutine waiters and a resolver that pops a handle
+            wai = [rng.choice([0, 0, 4]) for _ in range(rng.randint(4, 6))]
+            res = [(rng.choice([4, 7, 7, 5]), rng.randint(1, 99))] + ([(rng.choice([0, 7]), rng.randint(1, 99))] if rng.random() < 0.3 else [])
+            nr, nw = len(res), len(wai)
         order = list(range(nr + nw)); rng.shuffle(order)
-        L = rng.choice([0, 4, 8, 12, 20, 30])
+        L = rng.choice([0, 4, 8, 12, 20, 30]) if nw <= 3 else rng.choice([0, 10, 20, 30, 40])
         style = rng.random()
         if style < 0.6:
             sched = [rng.randint(0, 5) for _ in range(L)]
@@ -52,13 +57,18 @@ def gen(seed, tier, focus):
 
 
 def exhaustive_2w1r():
-    """every schedule of 2 waiters (all 15 unordered kind pairs) x 1 resolver (each of the 6 explicit kinds, or none =
+    """every schedule of 2 waiters (all 21 unordered kind pairs of 6 kinds) x 1 resolver (each of 7 explicit kinds, or none =
     the destructor of the shared promise resolves), enumerated by the extracted model itself (CellDefs.cell_enum)"""
     cfgs = []
-    for r in [None, (0, 5), (1, 6), (2, 0), (3, 0), (4, 7), (5, 8)]:
-        for w1 in range(5):
-            for w2 in range(w1, 5):
-                cfgs.append((([r] if r else []), [w1, w2]))
+    # all 21 waiter kind pairs for: no resolver (the destructor resolves), value, async completion, co_await promise(v);
+    # exception / drop / move-then-destroy / async-by-exception have the step structure of one of those: 6 mixed pairs each
+    some = [(0, 1), (1, 2), (2, 3), (3, 4), (4, 5), (0, 5)]
+    for r in [None, (0, 5), (4, 7), (7, 9), (1, 6), (2, 0), (3, 0), (5, 8)]:
+        full = r is None or r[0] in (0, 4, 7)
+        for w1 in range(6):
+            for w2 in range(w1, 6):
+                if full or (w1, w2) in some:
+                    cfgs.append((([r] if r else []), [w1, w2]))
     enum = [Case("cell_enum", "e%d" % i, [[1, k, d] for (k, d) in res] + [[2, k] for k in wai])
             for i, (res, wai) in enumerate(cfgs)]
     fd, path = tempfile.mkstemp(prefix="cell_enum.", dir="/var/tmp"); os.close(fd)
@@ -117,7 +127,7 @@ def gen_prom(seed, tier):
                 if eng == "prom_ref" and ops[-1][0] == 9:   # bind decays its arguments: not offered for reference futures
                     ops.pop()
                 continue
-            kind = rng.choice(["get", "get", "movec", "assign", "assign", "assign", "assignget", "destroy", "val", "val", "exc", "drop",
+            kind = rng.choice(["get", "get", "movec", "assign", "assign", "assign", "assignget", "destroy", "unwind", "val", "val", "exc", "drop",
                                "bind", "callclo", "destroyclo", "sub", "sub", "qcell", "qprom"])
             if kind == "get" and dead and free_cells:
                 p = rng.choice(dead); c = rng.choice(free_cells)
@@ -134,6 +144,8 @@ def gen_prom(seed, tier):
                 ops.append([4, p, c]); own[p] = c; taken[c] = True
             elif kind == "destroy" and live:
                 p = rng.choice(live); ops.append([5, p]); obj[p] = False; own[p] = None
+            elif kind == "unwind" and live:
+                p = rng.choice(live); ops.append([12, p]); own[p] = None
             elif kind == "val" and live:
                 p = rng.choice(live); ops.append([6, p, rng.randint(1, 99)]); own[p] = None
             elif kind == "exc" and live:
@@ -160,7 +172,7 @@ def gen_prom(seed, tier):
         for tgt in range(3):
             for src in range(3):
                 for wk in range(2):
-                    for after in ([6, 0, 5], [6, 1, 5], [8, 1], [5, 1], [2, 2, 1], [3, 1, 0]):
+                    for after in ([6, 0, 5], [6, 1, 5], [8, 1], [5, 1], [2, 2, 1], [3, 1, 0], [12, 0]):
                         ops = [[1, 0, 0], [1, 1, 1], [14, 0, 0, wk], [14, 1, 1, wk]]
                         ops += {0: [], 1: [[8, 0]], 2: [[2, 2, 0]]}[tgt]
                         ops += {0: [], 1: [[8, 1]], 2: [[2, 3, 1]]}[src]
